@@ -179,7 +179,11 @@ def full_diagram_spec(B, dump, source_opt=True):
     return parts
 
 
+LAST_PARTS = {"parts": None}
+
+
 def conj(B, parts):
+    LAST_PARTS["parts"] = parts       # kept so that the explorer can name the parts a class-level counterexample falsifies
     return B.And([f for _, f in parts])
 
 
